@@ -179,10 +179,7 @@ def run(repo, rep):
             for c in ast.walk(f.node):
                 if isinstance(c, ast.Call) and call_name(c) in ('nest', 'Nest') and c.args:
                     a = src(c.args[0])
-                    alias_ok = a in ('ctx.indent', 'nested_ctx.indent')
-                    if not alias_ok and isinstance(c.args[0], ast.Name):
-                        scope = f.parent.node if f.parent is not None else f.node
-                        alias_ok = any(isinstance(s, ast.Assign) and src(s.targets[0]) == a and src(s.value) == 'ctx.indent' for s in ast.walk(scope))
+                    alias_ok = _is_indent_setting(repo, c.args[0], f, 0)
                     n += 1
                     rep.check(alias_ok, 'C03.c', '%s:nest(%s)' % (f.qualname, a), '%s:%d' % (mod.relpath, c.lineno), 'nest(ctx.indent, ...)',
                               '%s nests by %s instead of ctx.indent' % (f.key, a), nontrivial=True)
@@ -245,7 +242,62 @@ def _arith(e):
     return True
 
 
-def _config_use_ok(u, par):
+def _is_indent_setting(repo, expr, f, depth):
+    """the expression is the indent setting of the context: ctx.indent itself, a local (or enclosing) name bound to it, or a parameter
+    of a module-level helper that every caller in the package binds to the indent setting"""
+    a = src(expr)
+    if a in ('ctx.indent', 'nested_ctx.indent'):
+        return True
+    if not isinstance(expr, ast.Name) or depth > 3:
+        return False
+    scope = f.parent.node if f.parent is not None else f.node
+    if any(isinstance(s, ast.Assign) and src(s.targets[0]) == a and src(s.value) == 'ctx.indent' for s in ast.walk(scope)):
+        return True
+    if f.parent is None and a in f.params and f.cls is None:
+        i = f.params.index(a)
+        sites = []
+        for g in repo.all_functions():
+            for c in ast.walk(g.node):
+                if isinstance(c, ast.Call) and isinstance(c.func, ast.Name) and c.func.id == f.name:
+                    r = repo.resolve(g.module, f.name)
+                    if r and r[0] == 'func' and r[1] is f:
+                        sites.append((g, c))
+        if not sites:
+            return False
+        for g, c in sites:
+            arg = c.args[i] if i < len(c.args) and not any(isinstance(x, ast.Starred) for x in c.args[:i + 1]) else \
+                next((k.value for k in c.keywords if k.arg == a), None)
+            if arg is None or not _is_indent_setting(repo, arg, g, depth + 1):
+                return False
+        return True
+    return False
+
+
+def _param_uses_ok(callee, pn, depth):
+    """the configuration handed to a package helper as parameter ``pn`` is used there only in the sanctioned ways (followed through
+    simple arithmetic assignments and further helpers, depth-bounded)"""
+    if depth > 3:
+        return False, 'passed on too deep to follow'
+    par = enclosing_map(callee.node)
+    tainted = {pn}
+    for _ in range(6):
+        before = set(tainted)
+        for s in ast.walk(callee.node):
+            if isinstance(s, ast.Assign) and len(s.targets) == 1 and isinstance(s.targets[0], ast.Name) and names_in(s.value) & tainted and _arith(s.value):
+                tainted.add(s.targets[0].id)
+        if tainted == before:
+            break
+    whys = set()
+    for x in ast.walk(callee.node):
+        if isinstance(x, ast.Name) and x.id in tainted and isinstance(x.ctx, ast.Load):
+            ok, why = _config_use_ok(x, par, depth + 1)
+            if not ok:
+                return False, '%s in %s' % (why, callee.name)
+            whys.add(why.split(' (')[0])
+    return True, 'parameter %s of %s (%s)' % (pn, callee.name, ', '.join(sorted(whys)) or 'never read')
+
+
+def _config_use_ok(u, par, depth=0):
     p = par.get(id(u))
     child = u
     while isinstance(p, (ast.BinOp, ast.UnaryOp)) or (isinstance(p, ast.Call) and call_name(p) in ('min', 'max', 'round', 'int', 'abs')):
@@ -276,9 +328,10 @@ def _config_use_ok(u, par):
                     return True, 'max_len of str_to_lines'
                 if cn in ('nest', 'Nest') and i == 0:
                     return True, 'nest amount' 
-                used = [x for x in ast.walk(callee.node) if isinstance(x, ast.Name) and x.id == pn and isinstance(x.ctx, ast.Load)]
-                if not used:
-                    return True, 'parameter %s of %s, which never reads it' % (pn, cn)
+                ok_, why_ = _param_uses_ok(callee, pn, depth)
+                if ok_:
+                    return True, why_
+                return False, 'argument of %s(...): %s' % (cn, why_)
         return False, 'argument of %s(...)' % cn
     if isinstance(p, ast.keyword):
         pp = par.get(id(p))
@@ -287,6 +340,12 @@ def _config_use_ok(u, par):
             return True, '%s= of %s' % (p.arg, cn)
         if p.arg in ('max_width', 'max_seq_length'):
             return True, '%s=' % p.arg
+        callee = _MOD.funcs.get(cn) if _MOD is not None else None
+        if callee is not None and p.arg in callee.params and p.value is child:
+            ok_, why_ = _param_uses_ok(callee, p.arg, depth)
+            if ok_:
+                return True, why_
+            return False, 'keyword %s= of %s: %s' % (p.arg, cn, why_)
         return False, 'keyword %s= of %s' % (p.arg, cn)
     if isinstance(p, (ast.If, ast.IfExp, ast.While)) and getattr(p, 'test', None) is child:
         return True, 'test'
